@@ -493,6 +493,9 @@ pub fn run(ctx: &mut Ctx) {
         if crate::fam_lower::set_pull_first(ctx.seed, case) {
             ctx.count("side-effect-report-pulled-before-encode");
         }
+        if crate::fam_lower::set_decoy_exits(ctx.seed, case) {
+            ctx.count("function-exit-probes-on-the-other-functions");
+        }
         let lowered = instrument(&wat, 0, 1, path, &plan, toks.len(), nl);
         // callees as the driver reads them
         let mut callees = vec!["log".to_string(), "self".to_string()];
